@@ -93,6 +93,21 @@ Definition x_rpartition (s n : fs) : res (fs * fs) :=
   | Some i => do a <- x_substring s 0 (Some i); do b <- x_substring s (i + zlen n) None; Val (a, b)
   | None => Val (from_cps [], s)
   end.
+(* rsplit: at most [count] splits, taken from the right, at non-overlapping occurrences (an occurrence must end at or before
+   the start of the previously used one) *)
+Fixpoint rsplit_go (fuel : nat) (s n : fs) (hi : Z) (count : Z) (acc : list fs) : res (list fs) :=
+  match fuel with
+  | O => Fuel
+  | S f =>
+      if count <=? 0 then (do a <- x_substring s 0 (Some hi); Val (a :: acc)) else
+      do r <- s_rfind s n (Some hi);
+      match r with
+      | None => do a <- x_substring s 0 (Some hi); Val (a :: acc)
+      | Some i => do piece <- x_substring s (i + zlen n) (Some hi); rsplit_go f s n i (count - 1) (piece :: acc)
+      end
+  end.
+Definition x_rsplit (s n : fs) (count : Z) : res (list fs) := rsplit_go (S (S (flen s))) s n (zlen s) count [].
+
 Definition x_starts_with (s p : fs) : res bool := do t <- x_substring s 0 (Some (zlen p)); Val (fs_eqb t p).
 Definition x_ends_with (s p : fs) : res bool :=
   if zlen p <=? zlen s then do t <- x_substring s (zlen s - zlen p) None; Val (fs_eqb t p) else Val false.
